@@ -1,6 +1,7 @@
 import XmppModel.Lemmas.NegotiateAdv
 import XmppModel.Lemmas.NegotiateFault
 import XmppModel.Lemmas.NegotiateDone
+import XmppModel.Lemmas.NegotiateComplete
 /-!
 The invariants of the negotiation machine hold in every reachable configuration (initial
 configuration + preservation by `step`, lifted by induction on the number of steps).
@@ -105,6 +106,13 @@ theorem invR_reach {c : Conf} (h : Reach C O st0 script picks c) : InvR st0 c :=
     · intro _ hr; exact Or.inl hr
   · intro c hc hr
     exact invR_step C O st0 c (invC_reach hc) (invC2_reach hc) (invQ_reach hc) hr
+
+theorem invK_reach {c : Conf} (h : Reach C O st0 script picks c) : InvK C c := by
+  refine reach_ind (P := InvK C) ?_ (fun c _ hc => invK_step C O c hc) c h
+  refine ⟨?_, ?_, ?_⟩
+  · intro _ h; cases h
+  · intro _ _ name req f hm; cases hm
+  · intro h; cases h
 
 theorem allowed_mandatory {cands : List Entry} {e : Entry} (he : e ∈ allowed cands)
     (hr : e.req = true) : ∀ e' ∈ cands, e'.req = true := by
